@@ -156,13 +156,18 @@ CLAIMED["C14"] = dict(
          "evaluators); C14_assign_frame - an assignment changes no variable other than its target; C14_element_frame - a[i] = v "
          "changes no other element; C14_call_by_value - the caller keeps the environment the argument evaluation left; "
          "C14_if_taken_branch / C14_loop_order - an if runs the branch taken, a loop its body once per element in order. "
-         "PARTIAL: the compiler's merging of variables (mux_envs, Env scopes in compile.rs) is not modelled; it is tied to "
-         "these semantics by the correspondence: generated statement-heavy programs that return ALL visible variables, compiled "
-         "by /repo in 4 circuit configurations and compared bit for bit with the Lean semantics.",
+         "About the model of the compiler (Model/BitSem.lean, core fragment: scalars, if, && / ||, blocks, let, let mut, "
+         "assignment to a variable): C14_compiled_scope / C14_compiled_stmts_scope - compiled code keeps the scope stack (same "
+         "names, types, order), so the environments merged after an if line up; C14_merge - the variable-by-variable merge "
+         "(mux_envs) of two such environments is the environment of the branch taken; C14_compiled_state - after any statements "
+         "of the fragment the wires of EVERY variable in scope encode the value the source semantics give it. PARTIAL: outside "
+         "that fragment (aggregates, accessors, match, loops, calls) the merging is tied to the semantics by the "
+         "correspondence: generated statement-heavy programs that return ALL visible variables, compiled by /repo in 4 "
+         "circuit configurations and compared bit for bit with the Lean semantics.",
     design_ref="DESIGN.md §6 C14",
     note="trusted: Lean kernel; Model/SrcSem.lean is the hand-written specification (not derived from compile.rs); the generator "
          "builds the syntax tree itself, so parser and type checker are on the tested side",
-    technique="Lean 4 proof (environment-shape invariant over the interpreter) + differential testing against the compiler",
+    technique="Lean 4 proof (environment-shape invariant over the interpreter; refinement of the compiler model incl. mux_envs for the core fragment) + differential testing against the compiler",
 )
 
 CLAIMED["C08"] = dict(
@@ -250,19 +255,22 @@ CLAIMED["C17"] = dict(
 )
 
 CLAIMED["C01"] = dict(
-    text="Lean theorem C01_core (Props/C01.lean): for the core fragment - Booleans and integers of EVERY width, literals, "
-         "variables, !, unary -, +, -, <, >, <=, >=, ==, !=, & | ^ on Booleans, && and ||, `as` between all these types, "
-         "if/else, blocks with let - and for every "
-         "program body, environment of well-typed values and fuel: if the source semantics (Model/SrcSem.lean) return a value, "
-         "the bit-level evaluation Bit.bitStmts - which follows compile.rs construct by construct and uses the bit-list "
-         "operators of Model/Arith.lean - returns exactly the encoding of that value and no panic; if they fail it reports "
-         "exactly that failure (first failing operation). The proof rests on the all-width correctness of the adder, "
-         "subtractor, comparator, equality, negation and cast circuits (Proofs/Arith*.lean, BitOps.lean). PARTIAL: the "
-         "fragment excludes *, /, %, shifts, bitwise operators on integers, aggregates, match, loops, mutation and calls; for "
-         "those, and for the step from Bit.bitStmts to real gates, the property is explored: generated programs (the "
-         "generator builds the syntax tree itself) are compiled as SSA and register circuit with and without de-duplication "
-         "and compared with the Lean source semantics on 6 argument tuples each; programs of the fragment are additionally run "
-         "through Bit.bitStmts, which must agree with the real circuit bit for bit.",
+    text="Lean theorems C01_core / C01_core_expr / C01_core_defined (Props/C01.lean): for the core fragment - Booleans and "
+         "integers of EVERY width, literals, variables, !, unary -, +, -, <, >, <=, >=, ==, !=, & | ^ on Booleans, && and ||, "
+         "`as` between all these types, if/else as expression and as statement, blocks, (), let, let mut, assignment to a "
+         "variable (also inside branches and short-circuit operands) - and for every program body, environment of well-typed "
+         "values and fuel: if the source semantics (Model/SrcSem.lean) return a value, the bit-level evaluation Bit.bitStmts - "
+         "which follows compile.rs construct by construct (both branches compiled, value, panic record and every variable "
+         "merged afterwards) and uses the bit-list operators of Model/Arith.lean - returns exactly the encoding of that value, "
+         "no panic, and variables whose wires encode the final source environment; if they fail it reports exactly that "
+         "failure (first failing operation); the source semantics are never stuck on such a program (type soundness). The "
+         "proof rests on the all-width correctness of the adder, subtractor, comparator, equality, negation and cast circuits "
+         "(Proofs/Arith*.lean, BitOps.lean). PARTIAL: the fragment excludes *, /, %, shifts, bitwise operators on integers, "
+         "aggregates, match, loops, calls and assignment through accessors; for those, and for the step from Bit.bitStmts to "
+         "real gates, the property is explored: generated programs (the generator builds the syntax tree itself) are compiled "
+         "as SSA and register circuit with and without de-duplication and compared with the Lean source semantics on 6 "
+         "argument tuples each; programs of the fragment are additionally run through Bit.bitStmts, which must agree with the "
+         "real circuit bit for bit.",
     design_ref="DESIGN.md §6 C01",
     note="trusted: Lean kernel; Model/SrcSem.lean is the hand-written specification; Model/BitSem.lean is tied to compile.rs by "
          "the correspondence on core-fragment programs, Model/Arith.lean to CircuitBuilder by C03/C04; eval() and the register "
